@@ -1,6 +1,7 @@
 import GtirbVerif.Lemmas.IRFunc
 import GtirbVerif.Lemmas.IRMirror
 import GtirbVerif.Lemmas.IREntries
+import GtirbVerif.Lemmas.IRFuncInsert
 import GtirbVerif.Spec.FuncCheck
 
 /-!
@@ -23,7 +24,8 @@ import GtirbVerif.Spec.FuncCheck
   blocks of the table only") is an invariant of `insert`, of `delete`, of the whole loop over the
   requests of a block and of `apply()`'s loop over all blocks - for every request list; so after
   the whole loop no block is listed by two functions, and every entry of a function is still one
-  of its blocks (`EntSub`, Lemmas/IREntries.lean).
+  of its blocks (`EntSub`, Lemmas/IREntries.lean); and code inserted into a block of function F
+  belongs to F when `insert` returns (Lemmas/IRFuncInsert.lean).
 -/
 namespace GtirbVerif.Props.C06
 open GtirbVerif GtirbVerif.IR
@@ -122,6 +124,20 @@ theorem entries_are_blocks_after_apply (rs : List BlockMods) (ir ir' : IR)
     (hnd : (rs.map (ivOf ir)).Nodup) (hnew : NewBlocksAll ir rs) (hm : MInv ir) (he : EntSub ir) : EntSub ir' := by
   obtain ⟨m1, e1⟩ := applyAll_entc rs ir ir' h hI hok hnd hnew hm (he.c hm.1)
   exact e1.sub m1.1
+
+/-- **code inserted into a block of function F belongs to F**: when `insert` returns, every code
+block of the patch that is still part of the module is, by the cache (which mirrors
+`functionBlocks`, see above), in the function of the block it was inserted into; a patch block that
+is not is one the clean-up took out of the module (joined into its neighbour, whose function it
+shares, or removed as empty) -/
+theorem inserted_code_belongs_to_the_function {i : Nat} {ir ir' : IR} {b off repl last f : Nat} {p : Patch} {blk : Block}
+    (h : ir.insert b off repl p = .ok (ir', last)) (hb : ir.block? b = some blk) (hbi : blk.bi = some i)
+    (hcode : blk.isCode = true) (hf : alookup b ir.fbb = some f) (hI : IdsBelow ir)
+    (hnew : ∀ c ∈ p.text.blocks.map (·.id), ir.block? c = none) (hlt : ∀ c ∈ p.text.blocks.map (·.id), c < ir.next)
+    (hnd : (p.text.blocks.map (·.id)).Nodup) :
+    ∀ tbk ∈ p.text.blocks, tbk.isCode = true →
+      alookup tbk.id ir'.fbb = some f ∨ ∃ x, ir'.block? tbk.id = some x ∧ x.bi = none :=
+  insert_code_joins_function h hb hbi hcode hf hI hnew hlt hnd
 
 /-! ### non-vacuity -/
 private def demo : IR := { fbb := [(1, 7), (2, 7)], aux := { funcBlocks := [(7, [1, 2])], funcEntries := [(7, [1])], funcNames := [(7, 99)] } }
